@@ -74,6 +74,15 @@ def gen_front_kind(rng, N, M, k):
     return F
 
 
+def warm_front(label, M):
+    """the front an operator object is used on before the recorded call: another number of objectives, tie-free"""
+    M2 = 2 if (BASE.get(label, label) == "pcd" or M >= 4) else 5
+    if M2 == M:
+        M2 = 3 if BASE.get(label, label) != "pcd" else 2
+    r = np.random.RandomState(97 * M + M2)
+    return r.random_sample((9, M2))
+
+
 def gen(rng, n_cases, max_n=40):
     for t in range(n_cases):
         label = LABELS[t % len(LABELS)]
@@ -86,7 +95,10 @@ def gen(rng, n_cases, max_n=40):
         # how the caller holds the objective matrix: C order, Fortran order, a strided view, integer dtype
         layout = ["C", "C", "C", "F", "strided", "int"][rng.randint(6)]
         # another crowding operator has just been evaluated on the same front with the same n_remove
-        yield {"label": label, "n_remove": n_remove, "F": F, "layout": layout, "rival": bool(rng.randint(3) == 0)}
+        # ... and the operator object itself served a front with another number of objectives before (a survival object kept
+        # across problems)
+        yield {"label": label, "n_remove": n_remove, "F": F, "layout": layout, "rival": bool(rng.randint(3) == 0),
+               "reuse": bool(rng.randint(3) == 0)}
 
 
 def case_from_record(rec):
@@ -285,7 +297,8 @@ def run_batch(cases):
             if sites:
                 rec.tags.add("model-predicts-oob:" + sites[0].split("@")[0])
             if wrapped and not compiled:
-                fb_jobs.append({"kind": "wrapped", "label": c["label"], "n_remove": int(c["n_remove"]), "F": F})
+                fb_jobs.append({"kind": "wrapped", "label": c["label"], "n_remove": int(c["n_remove"]), "F": F,
+                                "reuse": bool(c.get("reuse") and F.ndim == 2)})
                 fb_idx.append((i, name))
                 continue
             if compiled and BASE.get(c["label"], c["label"]) == "pcd" and M >= 3:
@@ -306,7 +319,11 @@ def run_batch(cases):
                         if base in ("mnn", "2nn", "pcd") and F.shape[1] == 2:
                             metrics.get_crowding_function("2nn" if base != "2nn" else "mnn").do(F.copy(), n_remove=c["n_remove"])
                         rec.tags.add("rival-metric")
-                    r = np.array(metrics.get_crowding_function(label_object(c["label"])).do(Fc, n_remove=c["n_remove"]), dtype=float)
+                    op_ = metrics.get_crowding_function(label_object(c["label"]))
+                    if c.get("reuse") and F.ndim == 2 and hasattr(op_, "do"):
+                        op_.do(warm_front(c["label"], F.shape[1]), n_remove=0)
+                        rec.tags.add("operator-reused-across-objective-counts")
+                    r = np.array(op_.do(Fc, n_remove=c["n_remove"]), dtype=float)
                     if not bits_equal(Fc, F):
                         rec.frames.append("the caller's array was modified by the crowding function")
                 else:
